@@ -66,8 +66,8 @@ check('C16', 'model_checking',
       'TLC enumeration with Grid.tla + exhaustive spec-to-code replay', 'DESIGN.md 4 C16')
 
 check('C20', 'fault_enumeration',
-      'spec/Cmdline.tla models main() as a staged pipeline (32 stages, same names as the Stage hook events); about 1980 fault sites (every '
-      'comma-separated field of every option of four base command lines replaced by empty / x / 0 / -1 / 1e300 / nan / inf / 1e-300 / 99, arity '
+      'spec/Cmdline.tla models main() as a staged pipeline (32 stages, same names as the Stage hook events); about 3170 fault sites (every '
+      'comma-separated field of every option of four base command lines replaced by empty / x / 0 / -1 / 1e300 / nan / inf / 1e-300 / 99 / 1e29 / -1e29 / 1e-29 / 1_0 / 1e / 0.5, arity '
       'changes, options given twice or omitted, contradictory and degenerate combinations) carry stage and outcome kind '
       '(spec/cmdline_table.json). TLC enumerates every single fault exhaustively and pairs of faults on different option groups by simulation, '
       'checks ExactlyOneOutcome / StopsAtFirst and dumps every scenario. Each scenario is run through the real main(); the verdict is taken '
